@@ -258,5 +258,11 @@ RegKeysDiamond == {<< <<1>>, 1, "" >>}
 \* ---- cached subscriptions under partial unsubscription (C07)
 SubKeysSubCache == {<< <<1>>, 1 >>, << <<1>>, 0 >>}
 LookKeysSubCache == {<< <<1>>, 1 >>, << <<1>>, 0 >>}
+\* ---- the shared empty declaration as a looked-up specification (C02/C05):
+\* spec 2 has no bases (the harness maps it to zope.interface's _empty
+\* singleton); registrations are for Interface / None and for RA
+SB_Empty == (0 :> <<>>) @@ (1 :> <<>>) @@ (2 :> <<>>)
+RegKeysEmpty == {<< <<0>>, 1, "" >>, << <<1>>, 1, "" >>, << <<0>>, 1, "n" >>}
+LookKeysEmpty == {<< <<2>>, 1 >>, << <<1>>, 1 >>, << <<2, 1>>, 1 >>}
 None == {}
 =============================================================================
